@@ -8,7 +8,8 @@
 # events of the new line and of end-of-stream are compared with the reference consumer.  Product states are merged
 # on the key (real fields, reference state) only, so merged states have the same futures on both sides.
 # Further parts: flat (unmerged) enumeration of all sequences <= N incl. the whole-test verdict through the real
-# TestRunTAP x exit status {0,1}; all strings of <= 2 printable characters as one-line streams; the pinned streams.
+# TestRunTAP x exit status {0,1}; all strings of <= 2 printable characters as one-line streams; every Unicode code point in
+# the number / directive-word positions of 16 line templates; the pinned streams.
 import io, json, re, sys, types
 from collections import namedtuple
 from verif.core import Check, pmap, run_main
@@ -53,7 +54,7 @@ def _directive(text):
     w = text.split()
     if not w:
         return None
-    u = w[0].upper()
+    u = ''.join(ch.upper() if ch.isascii() else ch for ch in w[0])     # the directive words are ASCII letters
     if u.startswith('SKIP'):
         return 'SKIP'
     if u == 'TODO':
@@ -86,7 +87,7 @@ def tokenize(line):
                 return ('unspec',)            # 'okay', 'ok1', 'ok#x': the specification does not say
             rest = rest.strip()
             num = None
-            if rest and rest[0].isdigit():
+            if rest and rest[0] in '0123456789':      # a TAP number is a run of the ASCII digits 0-9, nothing else
                 m = _T_NUM.match(rest)
                 if not m:
                     return ('unspec',)        # 'ok 1abc'
@@ -305,6 +306,10 @@ def compare(where, seg, ev, must, may, r2):
             # narrow class of DESIGN 7.11: some number occurs twice, some number of 1..count is absent, the highest
             # number equals the number of tests, the count agrees with the plan (or there is none), no other error due
             key = 'C18:dup-with-gap'
+        if where == 'end' and must == {'missing-number'} and 0 in r2.seen and max(r2.seen) == r2.count:
+            # a test numbered 0 (TAP numbers start at 1) stands in for the absent number: the highest number equals the number
+            # of tests, nothing is repeated, the count agrees with the plan (or there is none) - and some number of 1..count is absent
+            key = 'C18:number-zero-with-gap'
         return (key, 'an error event is required (%s) but the parser emitted none' % ', '.join(sorted(must))), 0
     if nerr and not must and not may:
         return ('C18:%s:spurious-error' % where, 'parser emitted %d error event(s), the reference has no reason for one' % nerr), 0
@@ -556,6 +561,78 @@ def chars_work(c0):
     return out, n, sorted(outcomes)
 
 
+
+# ---- part 3c: every Unicode code point in the positions of the grammar that are defined by a character class -------------
+# A TAP number (test number, plan count, version) is a run of the ASCII digits 0-9 and the directive words are ASCII letters;
+# any other character in those positions is ordinary text: after `ok` it starts the description (the test is unnumbered),
+# `1..<c>` / `TAP version <c>` are not a plan / a version line.  Hole `{c}` of every template x every code point of the domain.
+UNI_TEMPLATES = ['ok {c}', 'not ok {c}', 'ok {c} d', 'ok {c}1', 'ok {c}{c}', 'ok 1 {c}',
+                 '1..{c}', '1..{c}1', '1..{c} # SKIP', 'TAP version {c}', 'TAP version {c}3',
+                 '1..2\nok 1 a\nok {c} b', 'ok 1\nok {c}\nok 3\n1..3',
+                 'ok # {c}KIP', 'ok # s{c}ip', 'not ok # TO{c}O']
+ASCII_BLANK = ' \t'
+
+
+def uni_related(c):
+    """c is related to an ASCII digit, blank or letter by one of the character predicates / mappings of the str type (what a
+    character class, int() or a case conversion consults)"""
+    if c.isdecimal() or c.isdigit() or c.isnumeric() or c.isspace():
+        return True
+    return not c.isascii() and ((c.upper() != c and c.upper().isascii()) or (c.lower() != c and c.lower().isascii()))
+
+
+def uni_class(c):
+    if c.isascii():
+        return 'ascii'
+    if c.isdecimal():
+        return 'non-ascii-decimal-digit'
+    if c.isdigit() or c.isnumeric():
+        return 'non-ascii-numeric'
+    if c.upper().isascii() or c.lower().isascii():
+        return 'non-ascii-letter-with-ascii-case-mapping'
+    return 'non-ascii-other'
+
+
+def uni_work(cps):
+    viols, shapes = [], set()
+    cnt = {'streams': 0, 'skipped_unspecified_whitespace': 0, 'skipped_unspecified': 0, 'ascii_digit_read_as_number': 0,
+           'digitlike_non_ascii_in_number_position': 0, 'disagreements': 0}
+    seen = set()
+    for cp in cps:
+        c = chr(cp)
+        if c.isspace() and c not in ASCII_BLANK:
+            # unspecified corner: TAP separates tokens with blanks; whether another white-space character does is not said
+            cnt['skipped_unspecified_whitespace'] += len(UNI_TEMPLATES)
+            continue
+        cls = uni_class(c)
+        for ti, t in enumerate(UNI_TEMPLATES):
+            lines = list(io.StringIO(t.replace('{c}', c) + '\n'))
+            o = check_stream(lines)
+            cnt['streams'] += 1
+            cnt['skipped_unspecified'] += o['skipped']
+            if ti < 11:
+                if c in '0123456789':
+                    cnt['ascii_digit_read_as_number'] += 1
+                elif cls in ('non-ascii-decimal-digit', 'non-ascii-numeric'):
+                    cnt['digitlike_non_ascii_in_number_position'] += 1
+            found = []
+            if o['viol']:
+                found.append((o['viol'][0], o['viol'][1], None))
+            if o['real'][0] != 'raise':
+                shapes.add(tuple(e[0] for seg in o['real'] for e in seg))
+                v, bad = check_verdict(lines, 0, o['real'])
+                if v:
+                    found.append((v[0], v[1], 0))
+            for key, what, rc in found:
+                cnt['disagreements'] += 1
+                if cls != 'ascii':                 # an ASCII character in the hole gives an ordinary stream: ordinary key
+                    key = '%s:unicode:%s' % (key, cls)
+                if (key, ti) not in seen:          # first (lowest) code point per class and template; the others are counted
+                    seen.add((key, ti))
+                    viols.append((key, what, lines, rc, ti, cp))
+    return viols, cnt, sorted(shapes)
+
+
 PRINTABLE = [chr(c) for c in range(0x20, 0x7f)] + ['\t']
 
 # the streams of unittests/taptests.py (pinned expectations): the reference consumer must agree with the real parser
@@ -717,6 +794,40 @@ def main():
         ck.part('chars', alphabet=len(PRINTABLE), lines_fed=n, distinct_event_shapes=len(outcomes))
         ck.require(len(outcomes) >= 3, 'printable strings did not reach test/unknown/ignored outcomes')
 
+    # ---------------- part 3c: every code point in the number / directive-word positions ---------------------
+    uni_streams = 0
+    if ck.want('unicode'):
+        full = ck.q(False, True)
+        dom = [cp for cp in range(0x110000) if full or cp < 0x800 or uni_related(chr(cp))]
+        tot, shapes, seenk, ncls = {}, set(), set(), {}
+        for cp in dom:
+            k = uni_class(chr(cp))
+            ncls[k] = ncls.get(k, 0) + 1
+        chunks = [dom[i:i + 256] for i in range(0, len(dom), 256)]
+        for viols, cnt, sh in pmap(uni_work, chunks):
+            for k, v in cnt.items():
+                tot[k] = tot.get(k, 0) + v
+            shapes.update(tuple(x) for x in sh)
+            for key, what, lines, rc, ti, cp in viols:
+                if (key, ti) in seenk:
+                    continue
+                seenk.add((key, ti))
+                rep = {'part': 'unicode', 'raw_lines': lines, 'template': UNI_TEMPLATES[ti], 'codepoint': 'U+%04X' % cp}
+                if rc is not None:
+                    rep['rc'] = rc
+                ck.violation(key, '%s | template=%r with U+%04X | stream=%r' % (what, UNI_TEMPLATES[ti], cp, show(lines)), rep)
+        uni_streams = tot['streams']
+        ck.part('unicode', templates=len(UNI_TEMPLATES), codepoints=len(dom), codepoints_by_class=ncls,
+                domain='all of Unicode' if full else 'U+0000-U+07FF plus every code point that isdecimal/isdigit/isnumeric/isspace '
+                       'or a case mapping relates to an ASCII character',
+                distinct_event_shapes=len(shapes), **tot)
+        ck.require(tot['ascii_digit_read_as_number'] == 110, 'the ten ASCII digits were not all tried in the 11 number positions')
+        ck.require(ncls.get('non-ascii-decimal-digit', 0) >= 600 and tot['digitlike_non_ascii_in_number_position'] >= 11 * 1500,
+                   'non-ASCII digit characters never reached the number positions')
+        ck.require(ncls.get('non-ascii-letter-with-ascii-case-mapping', 0) >= 2, 'no non-ASCII letter with an ASCII case mapping')
+        ck.require(len(shapes) >= 6, 'unicode part did not reach test/plan/version/unknown/error outcomes')
+        ck.sample({'unicode': 'ok \u0663', 'events': real_trace(['ok \u0663\n'])[0]})
+
     # ---------------- part 3b: numbers of every size -------------------------------------------------------
     # "No input makes the parser raise": every place where the parser converts digits, with digit runs up to and beyond the
     # length at which int() refuses to convert.  Only the no-raise clause is decided here (the reference consumer is not asked).
@@ -759,7 +870,9 @@ def main():
         ck.part('pinned', streams=len(PINNED))
 
     ck.assume('TAP 12/13 reference consumer is my transcription of the specification and the property text; '
-              'a `#` not followed by SKIP.../TODO on a test line is a comment; the description keeps a leading "- "')
+              'a `#` not followed by SKIP.../TODO on a test line is a comment; the description keeps a leading "- "; numbers are runs '
+              'of the ASCII digits 0-9 and directive words ASCII letters (any case), every other character is text; white space other '
+              'than blank/tab as a token separator is unspecified (skipped, counted)')
     ck.assume('unspecified, hence error presence not compared (counted as skipped_unspecified): repeated tests after a late '
               'plan (one error suffices), directives on a plan line with tests, count/numbering errors at end of stream after '
               'Bail out!, errors reported early for duplicates/count overflow (a duplicate reported on the spot waives the numbering '
@@ -768,13 +881,14 @@ def main():
     ck.assume('product states merged on (parser fields %s + first-line flag, reference state); lineno beyond the first-line '
               'test and yaml_lineno only feed message text / UnknownLine.lineno, which is compared against the replayed '
               'position' % (', '.join(FIELDS)))
-    ck.finish(states=states, transitions=transitions, traces_validated_against_impl=traces + flat_seqs,
+    ck.finish(states=states, transitions=transitions, traces_validated_against_impl=traces + flat_seqs + uni_streams,
               known_class_hits=known_hits[0],
               rule='BFS to depth %d over %d line forms on the product (real TAPParser fields x reference TAP consumer), merged on the '
                    'canonical product key; each transition replays representative prefix + line on a fresh real parser and compares '
                    'the events of that line and of end-of-stream (kinds, numbers, names, results, plan, presence of an error) with the '
                    'reference; plus all %d unmerged sequences <= %d with the TestRunTAP verdict x exit {0,1}; plus all strings <= 2 '
-                   'printable chars' % (depth, NA, flat_seqs, FLAT_N),
+                   'printable chars; plus every code point of the stated domain in the number / directive-word holes of %d line templates'
+                   % (depth, NA, flat_seqs, FLAT_N, len(UNI_TEMPLATES)),
               exhaustive=True)
 
 
